@@ -325,3 +325,10 @@ Definition show_outcome (r : gstate * outcome) : string :=
 
 Definition show_run (w : list file) (c : cfg) (adds : list key) (ops : list op) : string :=
   sjoin " ; " (map show_outcome (run_ops w c (declare builtin_store adds) 0 g_init ops)).
+
+(* state after a whole history of operations (operation numbers count from opn) *)
+Fixpoint end_state (w : list file) (c : cfg) (declared : list key) (opn : nat) (g : gstate) (ops : list op) : gstate :=
+  match ops with
+  | [] => g
+  | o :: r => end_state w c declared (S opn) (fst (run_op w c declared opn g o)) r
+  end.
